@@ -431,6 +431,25 @@ func searchIntKey(p *thrift.BinaryProtocol, id int) (tt thrift.Type, start int, 
 	return
 }
 
+// checkPathType tells if the path can be applied on a value of the given type
+func checkPathType(path Path, t thrift.Type) string {
+	switch path.t {
+	case PathFieldId, PathFieldName:
+		if t != thrift.STRUCT {
+			return fmt.Sprintf("path %s is only valid for STRUCT, not %s", path, t)
+		}
+	case PathIndex:
+		if t != thrift.LIST && t != thrift.SET {
+			return fmt.Sprintf("path %s is only valid for LIST/SET, not %s", path, t)
+		}
+	case PathStrKey, PathIntKey, PathBinKey:
+		if t != thrift.MAP {
+			return fmt.Sprintf("path %s is only valid for MAP, not %s", path, t)
+		}
+	}
+	return ""
+}
+
 // GetByPath searches longitudinally and return a sub node at the given path from the node.
 //
 // The path is a list of PathFieldId, PathIndex, PathStrKey, PathBinKey, PathIntKey,
@@ -453,6 +472,10 @@ func (self Node) GetByPath(pathes ...Path) Node {
 	var err error
 
 	for i, path := range pathes {
+		// NOTICE: the path must match the type of current layer, otherwise the bytes would be read as another type
+		if e := checkPathType(path, tt); e != "" {
+			return errNode(meta.ErrDismatchType, e, nil)
+		}
 		switch path.t {
 		case PathFieldId:
 			tt, start, err = searchFieldId(&p, path.id())
